@@ -54,4 +54,44 @@ def hex (s : String) : String :=
   if s.isEmpty then "-" else
   String.ofList (s.toUTF8.toList.flatMap (fun b => [hexDigit (b.toNat / 16), hexDigit (b.toNat % 16)]))
 
+
+
+/-- S-expressions of the line protocol: tokens are separated by single spaces,
+parentheses are tokens of their own, strings travel hex-encoded. -/
+inductive Sexp
+  | atom (s : String)
+  | list (xs : List Sexp)
+  deriving Repr, Inhabited
+
+partial def parseMany : List String → List Sexp → Option (List Sexp × List String)
+  | [], acc => some (acc.reverse, [])
+  | ")" :: rest, acc => some (acc.reverse, ")" :: rest)
+  | "(" :: rest, acc =>
+    match parseMany rest [] with
+    | some (xs, ")" :: rest') => parseMany rest' (Sexp.list xs :: acc)
+    | _ => none
+  | "" :: rest, acc => parseMany rest acc
+  | tok :: rest, acc => parseMany rest (Sexp.atom tok :: acc)
+
+def parseLine (line : String) : Option (List Sexp) :=
+  match parseMany (line.splitOn " ") [] with
+  | some (xs, []) => some xs
+  | _ => none
+
+def Sexp.str? : Sexp → Option String
+  | .atom s => unhex s
+  | _ => none
+def Sexp.codes? : Sexp → Option (List Nat)
+  | .atom s => unhexCodes s
+  | _ => none
+def Sexp.nat? : Sexp → Option Nat
+  | .atom s => s.toNat?
+  | _ => none
+def Sexp.bool? : Sexp → Option Bool
+  | .atom "1" => some true
+  | .atom "0" => some false
+  | _ => none
+
+def hexCodes (cs : List Nat) : String := hex (codesToString cs)
+
 end YatimlModel.Wire
